@@ -38,7 +38,7 @@ impl ReturnType for TupleAccess {
         self.tuple
             .return_type()
             .tuple_element_at(self.index)
-            .unwrap()
+            .unwrap_or(crate::variable::Type::Never)
     }
 }
 
